@@ -221,6 +221,7 @@ func (cs c03Case) header() ref.Header {
 func c03Server(c *Ctx, s *c03Srv, key []byte, cs c03Case) {
 	clear := replyShaped(cs.N)
 	h := cs.header()
+	c.Cur(cs)
 	fail := func(dir, what string) {
 		c.R.Violate("server-"+dir+"/"+firstWord(what), fmt.Sprintf("server %s: %s; case %+v", dir, what, cs), cs)
 	}
